@@ -51,6 +51,8 @@ Record sess := {
 Record req := {
   r_id : nat;                 (* fosite request id: shared by every record of one grant *)
   r_client : nat;
+  r_cl : client;              (* the client object the stored request points to: the registration
+                                 as it was when the record was written (MemoryStore keeps the pointer) *)
   r_rscopes : list string;
   r_gscopes : list string;
   r_raud : list aurl;
@@ -63,7 +65,7 @@ Record req := {
 }.
 
 Definition with_sess (r : req) (s : sess) : req :=
-  {| r_id := r_id r; r_client := r_client r; r_rscopes := r_rscopes r; r_gscopes := r_gscopes r;
+  {| r_id := r_id r; r_client := r_client r; r_cl := r_cl r; r_rscopes := r_rscopes r; r_gscopes := r_gscopes r;
      r_raud := r_raud r; r_gaud := r_gaud r; r_sess := s; r_redirect := r_redirect r;
      r_challenge := r_challenge r; r_method := r_method r; r_at := r_at r |}.
 
@@ -74,18 +76,25 @@ Record store := {
   refresh : fmap (bool * req);      (* RefreshTokens: active flag *)
   at_idx : fmap nat;                (* AccessTokenRequestIDs: request id -> signature *)
   rt_idx : fmap nat;                (* RefreshTokenRequestIDs *)
-  pkce : fmap req                   (* PKCES *)
+  pkce : fmap req;                  (* PKCES *)
+  oidc : fmap req;                  (* IDSessions, keyed by the authorization code *)
+  device : fmap (nat * req);        (* DeviceAuths under the device-code signature: user-code state (0 unused, 1 accepted, 2 rejected) *)
+  par : fmap req                    (* PARSessions *)
 }.
 
 Definition store0 : store :=
-  {| codes := fempty; access := fempty; refresh := fempty; at_idx := fempty; rt_idx := fempty; pkce := fempty |}.
+  {| codes := fempty; access := fempty; refresh := fempty; at_idx := fempty; rt_idx := fempty; pkce := fempty;
+     oidc := fempty; device := fempty; par := fempty |}.
 
-Definition set_codes st v := {| codes := v; access := access st; refresh := refresh st; at_idx := at_idx st; rt_idx := rt_idx st; pkce := pkce st |}.
-Definition set_access st v := {| codes := codes st; access := v; refresh := refresh st; at_idx := at_idx st; rt_idx := rt_idx st; pkce := pkce st |}.
-Definition set_refresh st v := {| codes := codes st; access := access st; refresh := v; at_idx := at_idx st; rt_idx := rt_idx st; pkce := pkce st |}.
-Definition set_at_idx st v := {| codes := codes st; access := access st; refresh := refresh st; at_idx := v; rt_idx := rt_idx st; pkce := pkce st |}.
-Definition set_rt_idx st v := {| codes := codes st; access := access st; refresh := refresh st; at_idx := at_idx st; rt_idx := v; pkce := pkce st |}.
-Definition set_pkce st v := {| codes := codes st; access := access st; refresh := refresh st; at_idx := at_idx st; rt_idx := rt_idx st; pkce := v |}.
+Definition set_codes st v := {| codes := v; access := access st; refresh := refresh st; at_idx := at_idx st; rt_idx := rt_idx st; pkce := pkce st; oidc := oidc st; device := device st; par := par st |}.
+Definition set_access st v := {| codes := codes st; access := v; refresh := refresh st; at_idx := at_idx st; rt_idx := rt_idx st; pkce := pkce st; oidc := oidc st; device := device st; par := par st |}.
+Definition set_refresh st v := {| codes := codes st; access := access st; refresh := v; at_idx := at_idx st; rt_idx := rt_idx st; pkce := pkce st; oidc := oidc st; device := device st; par := par st |}.
+Definition set_at_idx st v := {| codes := codes st; access := access st; refresh := refresh st; at_idx := v; rt_idx := rt_idx st; pkce := pkce st; oidc := oidc st; device := device st; par := par st |}.
+Definition set_rt_idx st v := {| codes := codes st; access := access st; refresh := refresh st; at_idx := at_idx st; rt_idx := v; pkce := pkce st; oidc := oidc st; device := device st; par := par st |}.
+Definition set_oidc st v := {| codes := codes st; access := access st; refresh := refresh st; at_idx := at_idx st; rt_idx := rt_idx st; pkce := pkce st; oidc := v; device := device st; par := par st |}.
+Definition set_device st v := {| codes := codes st; access := access st; refresh := refresh st; at_idx := at_idx st; rt_idx := rt_idx st; pkce := pkce st; oidc := oidc st; device := v; par := par st |}.
+Definition set_par st v := {| codes := codes st; access := access st; refresh := refresh st; at_idx := at_idx st; rt_idx := rt_idx st; pkce := pkce st; oidc := oidc st; device := device st; par := v |}.
+Definition set_pkce st v := {| codes := codes st; access := access st; refresh := refresh st; at_idx := at_idx st; rt_idx := rt_idx st; pkce := v; oidc := oidc st; device := device st; par := par st |}.
 
 (* store methods; the result type says which error the method returned *)
 Inductive serr := SNotFound | SInactive.
